@@ -25,4 +25,14 @@ CHECKS = {
             {"pkg": "c03", "run": "TestExhaustive"},
         ],
     },
+    "C04": {
+        "level": "fault_enumeration",
+        "assumptions": [
+            "valid bodies come from the reference encoder; the strict reference decoder defines 'terminator arrived'",
+            "a cut is modelled as the body reader returning the first k bytes and then the chosen ending",
+        ],
+        "jobs": [
+            {"pkg": "c04", "run": "TestCuts", "checks": {Q: 1600, T: 24000}, "shards": {Q: 8, T: 16}},
+        ],
+    },
 }
